@@ -95,8 +95,31 @@ def c11_tasks(pid, tier, repo, seed, R):
     return value_tasks(pid, tier, repo, seed, R) + def_tasks(pid, tier, repo, seed, R, ["_validate"])
 
 
+def c08_tasks(pid, tier, repo, seed, R):
+    tasks = []
+    for cname in concrete_classes(R):
+        if "JSON" not in cname:
+            continue
+        for threads in (True, False):
+            tasks.append(dict(kind="c08", repo=repo, seed=seed, cname=cname, props=[pid], threads=threads,
+                              label=f"C08:{cname}:threads={threads}"))
+    return tasks
+
+
+def c19_tasks(pid, tier, repo, seed, R):
+    from props import c19
+    tasks = [dict(kind="c19", repo=repo, seed=seed, what="scan", props=[pid], threads=True, label="C19:scan")]
+    for r in c19.RESOLVERS:
+        for numpy in (False, True):
+            tasks.append(dict(kind="c19", repo=repo, seed=seed, what="resolver", resolver=r, props=[pid], threads=True,
+                              numpy=numpy, label=f"C19:{r[1]}:numpy={numpy}"))
+    return tasks
+
+
 API_PROPS["C11"] = dict(methods="mutator", title="forbidden data never gets in")
 EXTRA = {p: def_tasks for p in DEFS_FOR}
 EXTRA["C11"] = c11_tasks
 EXTRA["C12"] = value_tasks
+EXTRA["C08"] = c08_tasks
+EXTRA["C19"] = c19_tasks
 LEVEL = {}
